@@ -505,7 +505,26 @@ def r19_4(ctx, m):
             per_record.add(st.targets[0].id)
     n = 0
     max_updates = {}  # attr text -> (if node, assign)
+    # a local bound to one entry of a per-read table (`read = reads[name]`) is that table for the purpose of this rule
+    accs = set(accs)
     for s in walk_stmts(m.loop.body):
+        if isinstance(s, ast.Assign) and len(s.targets) == 1 and isinstance(s.targets[0], ast.Name) and isinstance(s.value, ast.Subscript) and isinstance(s.value.value, ast.Name) and s.value.value.id in accs:
+            accs.add(s.targets[0].id)
+    for s in walk_stmts(m.loop.body):
+        if isinstance(s, ast.Assign) and isinstance(s.targets[0], ast.Tuple) and all(isinstance(e, (ast.Attribute, ast.Subscript)) for e in s.targets[0].elts):
+            roots = []
+            for e in s.targets[0].elts:
+                r_ = e
+                while isinstance(r_, (ast.Attribute, ast.Subscript)):
+                    r_ = r_.value
+                roots.append(r_.id if isinstance(r_, ast.Name) else None)
+            if any(r_ in accs for r_ in roots):
+                n += 1
+                if isinstance(s.value, ast.Call) and norm(s.value.func) in ("max", "min") and all(isinstance(a, ast.Tuple) for a in s.value.args):
+                    ctx.violated("R19.4", f.where(s), f"`{norm(s)[:90]}` takes the {norm(s.value.func)}imum of the tuples as a whole (lexicographic): the second component is the one that travels with the best first component, not its own {norm(s.value.func)}imum (best map ratio and best identity of a read come from different records)", key_of(f, f"tuple-max:{norm(s.value)[:60]}"))
+                else:
+                    raise AnalysisError("R19.4", f.where(s), f"several per-read values are assigned at once from `{norm(s.value)[:60]}`")
+            continue
         if isinstance(s, ast.AugAssign):
             root = s.target
             while isinstance(root, (ast.Attribute, ast.Subscript)):
